@@ -69,13 +69,15 @@ def scale_bounds(f, k):
     return F.rebuild(f, [scale_bounds(c, k) for c in F.children(f)])
 
 
-def impl_values(monitor, f, data, n, text=None):
+def impl_values(monitor, f, data, n, text=None, names=()):
+    """`names`: the sub-specifications that `text` defines (declared like variables, as a user of a modular specification does)."""
     text = text or "out = " + F.to_text(f)
     vs = sorted(data)
+    kw = {"extra_decl": list(names)} if names else {}
     if monitor == "offd-reconf":
         # the object is reused after a change of the sampling period: bounds in seconds, period 1 s, then 500 ms
         def go():
-            spec = impl.make_spec("offd", text, vs)
+            spec = impl.make_spec("offd", text, vs, **kw)
             spec.parse()
             ds = {"time": list(range(n))}
             ds.update({v: list(data[v]) for v in vs})
@@ -84,9 +86,9 @@ def impl_values(monitor, f, data, n, text=None):
             return [p[1] for p in spec.evaluate(ds)]
         return text, impl.guarded(go)
     if monitor == "offd":
-        o = impl.eval_offline_discrete(text, vs, data, n)
+        o = impl.eval_offline_discrete(text, vs, data, n, **kw)
         return text, (o if o[0] != "ok" else ("ok", [p[1] for p in o[1]]))
-    return text, impl.run_online_discrete(text, vs, data, n, pastify=(monitor == "past"))
+    return text, impl.run_online_discrete(text, vs, data, n, pastify=(monitor == "past"), **kw)
 
 
 def horizon_of(f):
@@ -106,9 +108,11 @@ def sign_violation(vals, sats):
     return None
 
 
-def check_case(ctx, monitor, f, data, n, simple, rng, text=None):
-    text, out = impl_values(monitor, f, data, n, text)
+def check_case(ctx, monitor, f, data, n, simple, rng, text=None, names=()):
+    text, out = impl_values(monitor, f, data, n, text, names)
     rep = {"text": text, "monitor": monitor, "spec": text, "formula": F.to_proto(f), "data": data, "n": n, "impl": out, "simple": simple}
+    if names:
+        rep["names"] = list(names)
     if out[0] != "ok":
         return Violation("%s raised %r on %s" % (monitor, out[1:], text), rep, stream="sign")
     vals = out[1]
@@ -151,7 +155,7 @@ def check_case(ctx, monitor, f, data, n, simple, rng, text=None):
                     d2[v].append(x + sgn * k * mag * rng.choice([1.0, 1.0, 0.5]))
             ctx.evaluations += 1
             ctx.count("perturbed")
-            _, o2 = impl_values(monitor, f, d2, n)
+            _, o2 = impl_values(monitor, f, d2, n, text if names else None, names)
             s2 = model_sat([(f, d2, n)])[0]
             rep2 = dict(rep, t=t, perturbed=d2, impl_perturbed=o2, model_sat_perturbed=s2)
             if o2[0] != "ok":
@@ -242,6 +246,143 @@ def explore(ctx, rng, count):
                 return
 
 
+def future_reach(f, defs=None):
+    """Sum of the upper bounds of the bounded-future operators on the deepest path (through the named sub-specifications `defs`)."""
+    if f[0] == "v" and defs and f[1] in defs:
+        return future_reach(defs[f[1]], defs)
+    sub = max([future_reach(c, defs) for c in F.children(f)] or [0])
+    if (f[0] == "tb1" and f[1] in ("ev", "alw")) or (f[0] == "tb2" and f[1] == "until"):
+        return f[3] + sub
+    return sub
+
+
+def reference_delays(top, defs):
+    """name -> set of the delays that the references to it need in the pastified main assertion `top`.  Pastification delays the
+    whole assertion by its horizon H; a bounded-future operator with upper bound b uses up b of what remains for its operands,
+    any other operator that reaches r into the future is evaluated r late and hands its operands that r.  What arrives at a
+    reference is the delay this occurrence of the name has to be given."""
+    rec = {}
+
+    def walk(x, rem):
+        if x[0] == "v" and x[1] in defs:
+            rec.setdefault(x[1], set()).add(rem)
+            walk(defs[x[1]], rem)
+        elif (x[0] == "tb1" and x[1] in ("ev", "alw")) or (x[0] == "tb2" and x[1] == "until"):
+            for c in F.children(x):
+                walk(c, rem - x[3])
+        else:
+            r = future_reach(x, defs)
+            for c in F.children(x):
+                walk(c, r)
+    walk(top, future_reach(top, defs))
+    return rec
+
+
+def shared_subspec_case(rng):
+    """A modular specification whose main assertion refers to ONE named sub-specification several times, at places that need
+    different delays after pastification: next to an operand that reaches into the future and under it
+    (`p0 and eventually[0,2](not p0)`), under bounded-future operators with different bounds
+    (`always[0,1](p0) or eventually[2,3](p0)`), possibly through a second name (`p1 = always[0,1](p0)` next to a direct
+    reference of `p0`).  A reference to a name is the node of the named assertion itself, so the main assertion is a graph with a
+    shared node: pastify() has to delay every reference by what remains of the horizon at ITS place.  All predicates compare a
+    variable with a constant.  Returns (defs ending with ('out', main), names, True iff two references to one name need
+    different delays)."""
+    gp = F.Gen(rng, VARS, {"cmp", "bool", "not"}, max_bound=2)
+
+    def leaf():
+        return simple_formula(rng, gp, rng.choice([0, 0, 0, 1]))
+
+    def interval():
+        a = rng.randint(0, 2)
+        return a, min(a + rng.randint(0, 2), 3)
+    for _ in range(12):
+        body = leaf()
+        if rng.random() < 0.7:
+            # an inequality that about half of the values of `F.gen_trace` satisfy: the truth value of the name changes often
+            v, c = ("v", rng.choice(VARS)), ("c", rng.choice([0.0, 0.5, 1.0]))
+            body = ("b", rng.choice(["lt", "le", "gt", "ge"]), v, c) if rng.random() < 0.7 else ("b", rng.choice(["lt", "le", "gt", "ge"]), c, v)
+        if rng.random() < 0.2:
+            a, b = interval()
+            body = ("tb1", rng.choice(["once", "hist"]), a, b, body)
+        defs, names = [("p0", body)], ["p0"]
+        if rng.random() < 0.3:
+            a, b = interval()
+            inner = ("v", "p0") if rng.random() < 0.6 else ("b", rng.choice(["and", "or"]), ("v", "p0"), leaf())
+            defs.append(("p1", ("tb1", rng.choice(["ev", "alw"]), a, b, inner)))
+            names.append("p1")
+
+        def use(nm):
+            x = ("v", nm)
+            if rng.random() < 0.15:
+                x = ("u", "not", x)
+            for _ in range(rng.choice([0, 1, 1, 1, 2])):
+                a, b = interval()
+                if rng.random() < 0.8:
+                    x = ("tb1", rng.choice(["ev", "alw"]), a, b, x)
+                else:
+                    y = leaf()
+                    x = ("tb2", "until", a, b, x, y) if rng.random() < 0.5 else ("tb2", "until", a, b, y, x)
+                if rng.random() < 0.25:
+                    x = ("u", "not", x)
+            return x
+        nm = rng.choice(names)
+        uses = [use(nm) for _ in range(rng.choice([2, 2, 2, 3]))]
+        if len(names) > 1 and rng.random() < 0.7:
+            uses.append(use(names[0]))
+        if rng.random() < 0.2:
+            uses.append(leaf())
+        rng.shuffle(uses)
+        top = uses[0]
+        for x in uses[1:]:
+            op = rng.choice(["and", "or", "implies"])
+            top = ("b", op, top, x) if rng.random() < 0.5 else ("b", op, x, top)
+        distinct = any(len(ds) > 1 for ds in reference_delays(top, dict(defs)).values())
+        if distinct or rng.random() < 0.08:
+            break
+    return defs + [("out", top)], names, distinct
+
+
+def shared_stream(ctx, rng, count):
+    """Sign (and, offline, perturbation) check on modular specifications with a sub-specification that is referenced several
+    times (see `shared_subspec_case`); verdicts from the model's `sat` on the inlined formula."""
+    from .. import modular as M
+    cases = []
+    for _ in range(count):
+        monitor = rng.choice(["past", "past", "past", "past", "past", "offd"])
+        defs, names, distinct = shared_subspec_case(rng)
+        inl = M.inline(defs)
+        f = inl["out"]
+        text = "\n".join(["%s = %s;" % (nm, F.to_text(b)) for nm, b in defs[:-1]] + ["out = " + F.to_text(defs[-1][1])])
+        h = future_reach(f)
+        n = h + rng.randint(1, 7) if rng.random() < 0.9 else rng.randint(1, h + 1)
+        # (the variables of every assertion are inputs, also those of a name that the main assertion does not reach)
+        data = F.gen_trace(rng, sorted({v for g_ in inl.values() for v in F.variables(g_)}) or ["a"], n)
+        cases.append((monitor, f, text, names, distinct, n, data))
+    # known-finding region (pastification outside the fragment), asked from the model in one batch
+    frag = common.driver_run(["frag | frag | " + F.to_proto(c[1]) for c in cases]) if cases else []
+    skip_past = any(kf.get("status") == "known" and kf.get("region") in REGIONS for kf in ctx.known)
+    for (monitor, f, text, names, distinct, n, data), fr in zip(cases, frag):
+        if monitor == "past" and skip_past and fr.strip() != "1":
+            ctx.skipped_known += 1
+            continue
+        ctx.evaluations += 1
+        ctx.count("shared-subspec")
+        ctx.count("shared-subspec:" + ("references-with-different-delays" if distinct else "references-with-one-delay"))
+        ctx.count("monitor:" + monitor)
+        ctx.count("simple-preds" if monitor == "offd" else "general-preds")
+        v = check_case(ctx, monitor, f, data, n, monitor == "offd", rng, text, names)
+        if v is None:
+            ctx.traces_validated += 1
+            if distinct and monitor == "past" and not ctx.stats.get("shared-subspec:sampled"):
+                ctx.count("shared-subspec:sampled")
+                ctx.sample({"monitor": monitor, "spec": text, "data": data})
+        else:
+            v.stream = "shared-subspec/" + (v.stream or "sign")
+            ctx.violations.append(v)
+            if len(ctx.violations) >= 3:
+                return
+
+
 def replay(ctx, obj):
     if obj.get("monitor") in ("offc", "onc"):
         from .. import dense
@@ -252,20 +393,23 @@ def replay(ctx, obj):
     if "perturbed" in obj:
         d2 = {k: [float(x) for x in v] for k, v in obj["perturbed"].items()}
         t = obj["t"]
-        _, o1 = impl_values(obj["monitor"], f, data, obj["n"])
-        _, o2 = impl_values(obj["monitor"], f, d2, obj["n"])
+        names = obj.get("names") or ()
+        _, o1 = impl_values(obj["monitor"], f, data, obj["n"], obj.get("text") if names else None, names)
+        _, o2 = impl_values(obj["monitor"], f, d2, obj["n"], obj.get("text") if names else None, names)
         s1, s2 = model_sat([(f, data, obj["n"]), (f, d2, obj["n"])])
         if o1[0] != "ok" or o2[0] != "ok":
             return False, "evaluation raised"
         bad = s1[t] != s2[t] or (o1[1][t] > 0) != (o2[1][t] > 0) or (o1[1][t] < 0) != (o2[1][t] < 0) \
             or sign_violation(o2[1], s2) or sign_violation(o1[1], s1)
         return (not bad), ("verdict changes / sign unsound on the replayed perturbation" if bad else "verdict stable")
-    v = check_case(scratch, obj["monitor"], f, data, obj["n"], False, scratch.rng, obj.get("text"))
+    v = check_case(scratch, obj["monitor"], f, data, obj["n"], False, scratch.rng, obj.get("text"), obj.get("names") or ())
     return (v is None), (v.what if v else "sign is sound on the replayed case")
 
 
 def run(ctx):
     explore(ctx, ctx.subrng("sign"), ctx.budget(400, 6000))
+    if not ctx.violations:
+        shared_stream(ctx, ctx.subrng("shared"), ctx.budget(60, 900))
     if not ctx.violations:
         try:
             from .. import dense
@@ -276,3 +420,5 @@ def run(ctx):
 
 def search(ctx):
     explore(ctx, ctx.subrng("search"), ctx.budget(800, 4000))
+    if not ctx.violations:
+        shared_stream(ctx, ctx.subrng("search-shared"), ctx.budget(200, 1200))
